@@ -1,21 +1,80 @@
-// Package vudpcmsg replaces internal/udpcmsg in app/router/server_udp.go:
-// the simulated UDP socket has no ancillary data, so udp.multi_routes is
-// reported as unsupported (Ok() == false) and the listener takes the plain
-// path.  This clause of C01 (control-message parsing) is not reached.
+// Package vudpcmsg replaces internal/udpcmsg in app/router/server_udp.go.
+// The socket option part (IP_PKTINFO / IPV6_RECVPKTINFO via setsockopt on a
+// file descriptor) is replaced by a switch on the simulated socket; building
+// and parsing the ancillary data is the repository's own code, and the
+// simulated socket uses the same encoders, so the control messages the
+// listener sees have the layout a Linux kernel gives them.
 package vudpcmsg
 
 import (
-	"errors"
 	"net/netip"
+	"unsafe"
+
+	"golang.org/x/sys/unix"
 
 	"github.com/IrineSistiana/mosproxy/internal/udpcmsg"
 	"github.com/IrineSistiana/mosproxy/verifsim/vnet"
 )
 
-func Ok() bool { return false }
+func init() {
+	vnet.MakePktInfo = recvPktInfo
+	vnet.ParsePktInfo = sendPktInfo
+}
+
+// recvPktInfo is the ancillary data a Linux kernel attaches to a received
+// datagram whose destination address was a: IP_PKTINFO with ipi_addr (header
+// destination) and ipi_spec_dst (local address) for IPv4, IPV6_PKTINFO for
+// IPv6.
+func recvPktInfo(a netip.Addr) []byte {
+	a = a.Unmap()
+	if a.Is4() {
+		b := make([]byte, unix.CmsgSpace(unix.SizeofInet4Pktinfo))
+		h := (*unix.Cmsghdr)(unsafe.Pointer(&b[0]))
+		h.SetLen(unix.CmsgLen(unix.SizeofInet4Pktinfo))
+		h.Level, h.Type = unix.IPPROTO_IP, unix.IP_PKTINFO
+		m := (*unix.Inet4Pktinfo)(unsafe.Pointer(&b[unix.CmsgLen(0)]))
+		m.Ifindex, m.Spec_dst, m.Addr = 2, a.As4(), a.As4()
+		return b
+	}
+	b := make([]byte, unix.CmsgSpace(unix.SizeofInet6Pktinfo))
+	h := (*unix.Cmsghdr)(unsafe.Pointer(&b[0]))
+	h.SetLen(unix.CmsgLen(unix.SizeofInet6Pktinfo))
+	h.Level, h.Type = unix.IPPROTO_IPV6, unix.IPV6_PKTINFO
+	m := (*unix.Inet6Pktinfo)(unsafe.Pointer(&b[unix.CmsgLen(0)]))
+	m.Addr, m.Ifindex = a.As16(), 2
+	return b
+}
+
+// sendPktInfo is what sendmsg makes of the ancillary data: the source address
+// (ipi_spec_dst, or ipi_addr when that is zero; ipi6_addr).
+func sendPktInfo(oob []byte) (netip.Addr, error) {
+	for len(oob) > 0 {
+		hdr, data, rest, err := unix.ParseOneSocketControlMessage(oob)
+		if err != nil {
+			return netip.Addr{}, err
+		}
+		oob = rest
+		switch {
+		case hdr.Level == unix.IPPROTO_IP && hdr.Type == unix.IP_PKTINFO && len(data) >= unix.SizeofInet4Pktinfo:
+			m := (*unix.Inet4Pktinfo)(unsafe.Pointer(&data[0]))
+			if m.Spec_dst != [4]byte{} {
+				return netip.AddrFrom4(m.Spec_dst), nil
+			}
+			return netip.AddrFrom4(m.Addr), nil
+		case hdr.Level == unix.IPPROTO_IPV6 && hdr.Type == unix.IPV6_PKTINFO && len(data) >= unix.SizeofInet6Pktinfo:
+			m := (*unix.Inet6Pktinfo)(unsafe.Pointer(&data[0]))
+			return netip.AddrFrom16(m.Addr), nil
+		}
+	}
+	return netip.Addr{}, nil
+}
+
+func Ok() bool { return true }
 
 func SetOpt(c *vnet.UDPConn) (bool, error) {
-	return false, errors.New("vudpcmsg: not supported on simulated sockets")
+	c.EnablePktInfo()
+	la, _ := netip.ParseAddrPort(c.LocalAddr().String())
+	return !la.Addr().Is4(), nil
 }
 
 func ParseLocalAddr(oob []byte) (netip.Addr, error) { return udpcmsg.ParseLocalAddr(oob) }
